@@ -111,12 +111,20 @@ def on_return(code, off, retval):
     return M.DISABLE
 
 
+GEN_FUNCS = {"__init__", "_build_dispatch", "<module>"}
+DIALECT_FUNCS = {"__new__", "__getitem__", "get", "get_or_raise", "_try_load", "classes", "__eq__", "<module>", "__init__", "get_or_raise"}
+GEN_FILE = os.path.join(PKG, "generator.py")
+DIALECT_FILE = os.path.join(PKG, "dialects", "dialect.py")
+
+
 def on_line(code, line):
     fn = code.co_filename
     if not fn.startswith(WATCH):
         return M.DISABLE
+    if (fn == GEN_FILE and code.co_name not in GEN_FUNCS) or (fn == DIALECT_FILE and code.co_name not in DIALECT_FUNCS):
+        return M.DISABLE   # only the first-use paths: lazy import, registry, dispatch-cache fill
     # a yield point where the interpreter could switch threads anyway
-    if yrng.random() < 0.35:
+    if yrng.random() < 0.25:
         yields[0] += 1
         time.sleep(0 if yrng.random() < 0.8 else 0.00005)
     return None
